@@ -116,18 +116,22 @@ void muggle_evloop_run_poll(muggle_event_loop_t *evloop)
 				else
 				{
 					muggle_event_context_t *ctx = (muggle_event_context_t*)nodes[i]->data;
+					// poll returns the number of fds with non-zero revents,
+					// so count each ready fd once (POLLIN|POLLHUP is one fd)
+					if (fds[i].revents & (POLLIN | POLLHUP | POLLERR))
+					{
+						--n;
+					}
 					if (fds[i].revents & POLLIN)
 					{
 						if (evloop->cb_read)
 						{
 							evloop->cb_read(evloop, (muggle_event_context_t*)nodes[i]->data);
 						}
-						--n;
 					}
 					if (fds[i].revents & (POLLHUP | POLLERR))
 					{
 						muggle_ev_ctx_set_flag(ctx, MUGGLE_EV_CTX_FLAG_CLOSED);
-						--n;
 					}
 
 					if (ctx->flags & MUGGLE_EV_CTX_FLAG_CLOSED)
